@@ -864,7 +864,7 @@ def spec_check(ctx, budget):
 
     if getattr(ctx, "driver", None) is not None:
         maxlen = 30 if not ctx.thorough else 60
-        check_pair_cases(ctx, out, gen_pair_cases(rng, 150 * budget, maxlen), kind_for_model="corr")
+        check_pair_cases(ctx, out, gen_pair_cases(rng, 150 * budget * (3 if ctx.thorough else 1), maxlen), kind_for_model="corr")
         # length-0 stream: informational
         for s1, s2, local in [("", "ACG", False), ("ACG", "", True), ("", "", False)]:
             r = run_pairwise(s1, s2, "dna", [[1 if a == b else -1 for b in DNA] for a in DNA], 5, 1, local, 10**8)
